@@ -13,14 +13,34 @@ Families (all exhaustive inside the stated bounds, see gen_*):
   B  declarators: every valid composition of {pointer, array, function} up to length 3 (thorough 4) around several
      base types; minimal and fully parenthesised spelling; named, typedef, abstract and parameter contexts
   C  structs and unions: every member sequence up to length 3 (thorough 4) over the member alphabet x attributes
-  D  stddef.h types, enums, _Alignas on objects (address observed at run time)
+  Z  the _Alignas dimension of the struct/union family (reported as struct/union cases): one member declared with
+     _Alignas(operand), operand x target x position x context.  The operand ranges over constants and constant
+     expressions (0, 1..64, sizeof/_Alignof/shift/enum/cast expressions) AND over type names of every class: scalars,
+     pointers, arrays (of scalars, of structs, multi-dimensional), structs/unions whose size differs from their alignment
+     ({int;int;int}, {char c[5];}, {long double;char;}, packed, aligned, with bit-fields, with a flexible member, written
+     inline), typedef names of all these (also typeof, max_align_t), and nested requirements (the named struct/union has
+     itself an _Alignas(constant | type-name) member; arrays, typedefs and pointers of those) - see _OPS.
+     Targets (TGT): char/short/int/long/long double/pointer/char[3]/short[2]/struct members, the aligned-storage idiom
+     `_Alignas(T) unsigned char buf[sizeof(T)]`, an anonymous struct member, two declarators sharing the specifier; the
+     specifier stands at every position of the target's specifier list.  Pairs of specifiers in one declaration (the
+     strictest wins, 6.7.5p6) over MULTI_OPS^2.  Only declarations C11 defines are generated (6.7.5p4).  Facts: sizeof,
+     _Alignof, offsetof of every member, and for the _Alignas member sizeof / _Alignof(expression) of the member, of an
+     array of the enclosing type, of its elements and of the member inside an element.
+  D  stddef.h types, enums; the operand alphabet itself (sizeof/_Alignof of every type name, value of every constant);
+     objects declared with _Alignas(operand) - the same operand alphabet x object targets x position, pairs of
+     specifiers - in four storage classes (file scope external / internal linkage, static local, automatic), and
+     objects and arrays of a struct type with an _Alignas(type-name) member: the address (run time), sizeof and
+     _Alignof(expression) of the object, its elements and members
 
 Verdicts.  A failing struct/union case is shrunk by dropping members (and the attribute) while the same kind of failure
 persists - every sub-sequence is itself an enumerated case, so this is a table lookup - and reported as
 `C08|<struct|union>|<attribute>:<member kind classes>|<deviation class>`.  One systematic defect of the pinned tree is a
 listed finding (findings.d/C08.txt): bit-fields inside packed structs.  It is recognised only when *every* observed fact
 of the case equals the transcription of chibicc's algorithm (layout(flavor="chibicc")); any other wrong answer in a
-packed struct keeps its own signature, so the finding does not blind the check.  When chibicc rejects or crashes on a
+packed struct keeps its own signature, so the finding does not blind the check.  Two more deviations found by the
+_Alignas dimension are handled the same way while their proposed fixes are pending: of several _Alignas specifiers the
+last one wins (layout(lw=True)), and _Alignof(lvalue) ignores the alignment of the declaration (GNU semantics; the
+observed value must be exactly the alignment of the operand's type).  When chibicc rejects or crashes on a
 batch, the offending cases are isolated one by one, reported, and still judged on sizeof/_Alignof alone if that compiles.
 """
 import os, re, itertools
@@ -308,9 +328,181 @@ MULTI = {
 }
 
 
+# ---- the operand alphabet of _Alignas ---------------------------------------------------------------------------
+# `_Alignas(constant-expression)` and `_Alignas(type-name)` (C11 6.7.5).  The operand ranges over constants and over
+# type names of every class; most aggregate and array types have size != alignment, so a size/alignment mix-up (or any
+# other wrong answer for a class of type names) shows in offsets, sizeof and _Alignof of the enclosing type.
+# Named types an operand may need (declared once per case, '@' = case index): key -> (declaration, prerequisites)
+ODEFS = {
+    "pt2": ("struct pt2_@ { int x, y; };", ()),
+    "pt3": ("struct pt3_@ { int x, y, z; };", ()),
+    "c5": ("struct c5_@ { char c[5]; };", ()),
+    "ldc": ("struct ldc_@ { long double a; char b; };", ()),
+    "cs": ("struct cs_@ { char a; short b; char c; };", ()),
+    "rec": ("struct rec_@ { char k; double d; short s; };", ()),
+    "l3": ("struct l3_@ { long a, b, c; };", ()),
+    "u9": ("union u9_@ { char c[9]; long l; };", ()),
+    "u3": ("union u3_@ { short s; char c[3]; };", ()),
+    "pk": ("struct __attribute__((packed)) pk_@ { char c; int i; };", ()),
+    "al16": ("struct al16_@ { char x; } __attribute__((aligned(16)));", ()),
+    "bf": ("struct bf_@ { int a : 3; char b; };", ()),
+    "fam": ("struct fam_@ { int n; char d[]; };", ()),
+    "en": ("enum en_@ { EA_@ };", ()),
+    "ek": ("enum { EK_@ = 8 };", ()),
+    # structs and unions that themselves have an _Alignas member (nested alignment requirements)
+    "na": ("struct na_@ { char t; _Alignas(8) char m; };", ()),
+    "nb": ("struct nb_@ { _Alignas(struct pt3_@) char m; char n[5]; };", ("pt3",)),
+    "nc": ("struct nc_@ { _Alignas(struct na_@) short s; char e; };", ("na",)),
+    "nd": ("struct nd_@ { char a; _Alignas(16) char b; char c; };", ()),
+    "nu": ("union nu_@ { char a; _Alignas(4) char b[6]; };", ()),
+    # typedef names
+    "PT3": ("typedef struct pt3_@ PT3_@;", ("pt3",)),
+    "C5": ("typedef struct c5_@ C5_@;", ("c5",)),
+    "LDC": ("typedef struct ldc_@ LDC_@;", ("ldc",)),
+    "NA": ("typedef struct na_@ NA_@;", ("na",)),
+    "quad": ("typedef int quad_@[4];", ()),
+    "quad2": ("typedef quad_@ quad2_@[2];", ("quad",)),
+    "s3": ("typedef struct { short a, b, c; } s3_@;", ()),
+    "ca7": ("typedef char ca7_@[7];", ()),
+    "word": ("typedef long word_@;", ()),
+    "fp": ("typedef void (*fp_@)(int);", ()),
+}
+# operand: (key, class, spelling, named types needed, sizeof or None for a constant, alignment it requests)
+_OPS = [
+    ("k0", "const", "0", (), None, 0), ("k1", "const", "1", (), None, 1), ("k2", "const", "2", (), None, 2),
+    ("k4", "const", "4", (), None, 4), ("k8", "const", "8", (), None, 8), ("k16", "const", "16", (), None, 16),
+    ("k32", "const", "32", (), None, 32), ("k64", "const", "64", (), None, 64),
+    ("xsi", "const", "sizeof(int)", (), None, 4), ("xald", "const", "_Alignof(long double)", (), None, 16),
+    ("xsh", "const", "1 << 3", (), None, 8), ("xsub", "const", "sizeof(struct pt3_@) - 4", ("pt3",), None, 8),
+    ("xaldc", "const", "_Alignof(struct ldc_@)", ("ldc",), None, 16), ("xek", "const", "EK_@", ("ek",), None, 8),
+    ("xspt2", "const", "sizeof(struct pt2_@)", ("pt2",), None, 8), ("xcast", "const", "(char)2", (), None, 2),
+    ("char", "scalar", "char", (), 1, 1), ("schar", "scalar", "signed char", (), 1, 1), ("uchar", "scalar", "unsigned char", (), 1, 1),
+    ("bool", "scalar", "_Bool", (), 1, 1), ("short", "scalar", "short", (), 2, 2), ("ushort", "scalar", "unsigned short", (), 2, 2),
+    ("int", "scalar", "int", (), 4, 4), ("uint", "scalar", "unsigned", (), 4, 4), ("long", "scalar", "long", (), 8, 8),
+    ("ulong", "scalar", "unsigned long", (), 8, 8), ("llong", "scalar", "long long", (), 8, 8),
+    ("ullint", "scalar", "long long unsigned int", (), 8, 8), ("float", "scalar", "float", (), 4, 4),
+    ("double", "scalar", "double", (), 8, 8), ("ldouble", "scalar", "long double", (), 16, 16),
+    ("enum", "scalar", "enum en_@", ("en",), 4, 4), ("cint", "scalar", "const int", (), 4, 4), ("vlong", "scalar", "volatile long", (), 8, 8),
+    ("vptr", "pointer", "void *", (), 8, 8), ("cptr", "pointer", "char *", (), 8, 8), ("ipp", "pointer", "int **", (), 8, 8),
+    ("fptr", "pointer", "int (*)(void)", (), 8, 8), ("aptr", "pointer", "int (*)[3]", (), 8, 8),
+    ("sptr", "pointer", "struct pt3_@ *", ("pt3",), 8, 8), ("iptr", "pointer", "struct nodef_@ *", (), 8, 8),
+    ("ccptr", "pointer", "const char *const", (), 8, 8),
+    ("ca3", "array", "char[3]", (), 3, 1), ("ca5", "array", "char[5]", (), 5, 1), ("sa2", "array", "short[2]", (), 4, 2),
+    ("sa3", "array", "short[3]", (), 6, 2), ("ia3", "array", "int[3]", (), 12, 4), ("ia4", "array", "int[4]", (), 16, 4),
+    ("la2", "array", "long[2]", (), 16, 8), ("da3", "array", "double[3]", (), 24, 8), ("lda2", "array", "long double[2]", (), 32, 16),
+    ("ia23", "array", "int[2][3]", (), 24, 4), ("pa3", "array", "char *[3]", (), 24, 8),
+    ("pt3a2", "array", "struct pt3_@[2]", ("pt3",), 24, 4), ("c5a3", "array", "struct c5_@[3]", ("c5",), 15, 1),
+    ("ldca2", "array", "struct ldc_@[2]", ("ldc",), 64, 16), ("u9a2", "array", "union u9_@[2]", ("u9",), 32, 8),
+    ("pt2", "struct", "struct pt2_@", ("pt2",), 8, 4), ("pt3", "struct", "struct pt3_@", ("pt3",), 12, 4),
+    ("c5", "struct", "struct c5_@", ("c5",), 5, 1), ("ldc", "struct", "struct ldc_@", ("ldc",), 32, 16),
+    ("cs", "struct", "struct cs_@", ("cs",), 6, 2), ("rec", "struct", "struct rec_@", ("rec",), 24, 8),
+    ("l3", "struct", "struct l3_@", ("l3",), 24, 8), ("u9", "struct", "union u9_@", ("u9",), 16, 8),
+    ("u3", "struct", "union u3_@", ("u3",), 4, 2), ("pk", "struct", "struct pk_@", ("pk",), 5, 1),
+    ("al16", "struct", "struct al16_@", ("al16",), 16, 16), ("bf", "struct", "struct bf_@", ("bf",), 4, 4),
+    ("fam", "struct", "struct fam_@", ("fam",), 4, 4),
+    ("inl", "struct", "struct { int a, b, c; }", (), 12, 4), ("inlu", "struct", "union { char c[5]; short s; }", (), 6, 2),
+    ("PT3", "typedef", "PT3_@", ("PT3",), 12, 4), ("C5", "typedef", "C5_@", ("C5",), 5, 1), ("LDC", "typedef", "LDC_@", ("LDC",), 32, 16),
+    ("quad", "typedef", "quad_@", ("quad",), 16, 4), ("quad2", "typedef", "quad2_@", ("quad2",), 32, 4),
+    ("s3", "typedef", "s3_@", ("s3",), 6, 2), ("ca7", "typedef", "ca7_@", ("ca7",), 7, 1), ("word", "typedef", "word_@", ("word",), 8, 8),
+    ("fp", "typedef", "fp_@", ("fp",), 8, 8), ("PT3a", "typedef", "PT3_@[3]", ("PT3",), 36, 4),
+    ("maxal", "typedef", "max_align_t", (), 32, 16), ("sizet", "typedef", "size_t", (), 8, 8), ("wchar", "typedef", "wchar_t", (), 4, 4),
+    ("tofs", "typedef", "__typeof__(struct pt3_@)", ("pt3",), 12, 4), ("tofe", "typedef", "__typeof__(0L)", (), 8, 8),
+    ("na", "nested", "struct na_@", ("na",), 16, 8), ("nb", "nested", "struct nb_@", ("nb",), 8, 4),
+    ("nc", "nested", "struct nc_@", ("nc",), 8, 8), ("nd", "nested", "struct nd_@", ("nd",), 32, 16),
+    ("nu", "nested", "union nu_@", ("nu",), 8, 4), ("naa3", "nested", "struct na_@[3]", ("na",), 48, 8),
+    ("NA", "nested", "NA_@", ("NA",), 16, 8), ("ndp", "nested", "struct nd_@ *", ("nd",), 8, 8),
+]
+OPS = dict((o[0], {"key": o[0], "cls": o[1], "text": o[2], "defs": o[3], "size": o[4], "align": o[5]}) for o in _OPS)
+OPCLASSES = ["const", "scalar", "pointer", "array", "struct", "typedef", "nested"]
+# pairs of alignment specifiers in one declaration (6.7.5p6: the strictest wins, zero has no effect) range over this
+MULTI_OPS = ["k0", "k2", "k4", "k8", "k16", "char", "int", "long", "ldouble", "pt3", "c5", "ldc", "quad", "na", "sa3", "vptr"]
+# what is declared with the alignment specifier: key -> (specifier tokens, declarator, sizeof (None: sizeof operand),
+# natural alignment, form).  {n} = member/object name, {X} = the (first) operand.  The specifier is inserted at every
+# position of the specifier tokens (quick: in front of them; behind them for a few targets).
+TGT = {
+    "c": (("char",), "{n}", 1, 1, "plain"), "s": (("short",), "{n}", 2, 2, "plain"), "i": (("int",), "{n}", 4, 4, "plain"),
+    "l": (("long",), "{n}", 8, 8, "plain"), "ld": (("long", "double"), "{n}", 16, 16, "plain"), "p": (("void",), "*{n}", 8, 8, "plain"),
+    "ca3": (("char",), "{n}[3]", 3, 1, "array"), "sa2": (("short",), "{n}[2]", 4, 2, "array"),
+    "buf": (("unsigned", "char"), "{n}[sizeof({X})]", None, 1, "array"),          # the aligned-storage idiom
+    "c5": (("struct { char c[5]; }",), "{n}", 5, 1, "plain"), "pt2": (("struct { int x, y; }",), "{n}", 8, 4, "plain"),
+    "anon": (("struct { char {n}q; }",), "", 1, 1, "anon"),                          # anonymous struct member
+    "cc": (("char",), "{n}, {n}_", 1, 1, "cc"),                                      # two declarators share the specifier
+}
+TGT_OBJ = ["c", "s", "i", "l", "ld", "ca3", "sa2", "buf", "c5", "pt2"]
+
+
+def op_defs(keys):
+    """declarations needed by the operands, prerequisites first, each once"""
+    out = []
+
+    def need(k):
+        for p in ODEFS[k][1]:
+            need(p)
+        if ODEFS[k][0] not in out:
+            out.append(ODEFS[k][0])
+    for k in keys:
+        need(k)
+    return out
+
+
+def alignas_decl(opkeys, tk, pos, n):
+    """One declaration `<specifiers with _Alignas(op)... inserted at pos> <declarator>` (no semicolon).
+    -> None when C11 does not define it (6.7.5p4: the combined alignment is weaker than the type requires), else
+    dict(text, defs, size, align (declared), ua, talign (alignment of the type), lw_align / lw_ua (the same under
+    'the last specifier wins'))."""
+    ops = [OPS[k] for k in opkeys]
+    spec, dtor, sz, nat, form = TGT[tk]
+    if sz is None:
+        if len(ops) != 1 or not ops[0]["size"]:
+            return None
+        sz = ops[0]["size"]
+    k = max(o["align"] for o in ops)
+    if k and k < nat:
+        return None
+    als = ["_Alignas(%s)" % o["text"] for o in ops]
+    toks = list(spec)
+    if pos == "s":                                  # split: one specifier in front, the rest behind
+        if len(ops) < 2:
+            return None
+        toks = als[:1] + toks + als[1:]
+    else:
+        p = int(pos)
+        if p > len(toks):
+            return None
+        toks[p:p] = als
+    text = (" ".join(toks) + " " + dtor).replace("{n}", n).replace("{X}", ops[0]["text"]).strip()
+    klast = ops[-1]["align"]
+    defs = []
+    for o in ops:
+        for d in op_defs(o["defs"]):
+            if d not in defs:
+                defs.append(d)
+    return {"text": text, "defs": defs, "size": sz, "align": max(k, nat), "ua": k != 0, "talign": nat, "form": form,
+            "lw_align": klast or nat, "lw_ua": klast != 0}
+
+
+def z_member(code, j):
+    """member code `Z.<operand>[+<operand>].<target>.<position>`"""
+    _, opk, tk, pos = code.split(".")
+    n = "m%d" % j
+    d = alignas_decl(opk.split("+"), tk, pos, n)
+    if d is None:
+        raise ValueError(code)
+    form = d["form"]
+    names = [n + "q"] if form == "anon" else ([n, n + "_"] if form == "cc" else [n])
+    ms = [{"k": "f", "size": d["size"], "align": d["align"], "ua": d["ua"], "sub": [(nm, 0)], "subbits": [],
+           "lw_align": d["lw_align"], "lw_ua": d["lw_ua"]} for nm in names]
+    # _Alignof(expression) and sizeof of the member itself (not for the member of the anonymous struct: that
+    # declaration carries no alignment specifier)
+    ea = [] if form == "anon" else [(nm, d["talign"], d["size"]) for nm in names]
+    return {"decl": d["text"] + ";", "offs": names, "bits": [], "m": ms if len(ms) > 1 else ms[0], "pre": d["defs"], "ea": ea}
+
+
 def member(code, j):
     """-> dict(decl, offs[(label, designator)], bits[(label, designator)], m=model member)."""
     n = "m%d" % j
+    if code.startswith("Z."):
+        return z_member(code, j)
     if code in MULTI:
         fmt, parts = MULTI[code]
         names = [n, n + "_"]
@@ -373,12 +565,19 @@ def member(code, j):
     raise ValueError(code)
 
 
-def layout(kind, attr, mems, flavor):
+def layout(kind, attr, mems, flavor, lw=False):
     """Reference layout ("abi": psABI as implemented by gcc) or transcription of chibicc's algorithm ("chibicc").
-    -> (size, align, {designator: byte offset}, {designator: (bit offset, width)})"""
+    lw: transcription of 'the last of several _Alignas specifiers wins' (C11: the strictest wins).
+    -> (size, align, {designator: byte offset}, {designator: (bit offset, width)}, {designator: alignment of the member})"""
     packed = "packed" in attr
     ak = max([int(a[8:-1]) for a in attr if a.startswith("aligned")] or [0])
-    offs, bitpos = {}, {}
+    offs, bitpos, eff = {}, {}, {}
+
+    def malign(m):
+        al, ua = (m.get("lw_align", m["align"]), m.get("lw_ua", m["ua"])) if lw else (m["align"], m["ua"])
+        a = al if (not packed or ua) else 1
+        eff[m["sub"][0][0]] = a
+        return a
     if kind == "union":
         size = 0; al = 1
         for m in mems:
@@ -394,14 +593,14 @@ def layout(kind, attr, mems, flavor):
                 if m["named"]:
                     bitpos[m["name"]] = (0, m["width"])
             else:
-                a = m["align"] if (not packed or m["ua"]) else 1
+                a = malign(m)
                 al = max(al, a); size = max(size, m["size"])
                 for s, o in m["sub"]:
                     offs[s] = o
                 for s, o, w in m["subbits"]:
                     bitpos[s] = (o, w)
         al = max(al, ak)
-        return up(size, al), al, offs, bitpos
+        return up(size, al), al, offs, bitpos, eff
     bits = 0; al = 1
     for m in mems:
         if m["k"] == "bf":
@@ -417,7 +616,7 @@ def layout(kind, attr, mems, flavor):
                         al = max(al, m["size"])
                 bits += m["width"]
         else:
-            a = m["align"] if (not packed or m["ua"]) else 1
+            a = malign(m)
             bits = up(bits, a * 8)
             for s, o in m["sub"]:
                 offs[s] = bits // 8 + o
@@ -426,7 +625,7 @@ def layout(kind, attr, mems, flavor):
             bits += m["size"] * 8
             al = max(al, a)
     al = max(al, ak)
-    return up(bits, al * 8) // 8, al, offs, bitpos
+    return up(bits, al * 8) // 8, al, offs, bitpos, eff
 
 
 def flat(ms):
@@ -455,21 +654,52 @@ def attr_text(names):
     return " __attribute__((%s)) " % ", ".join(names) if names else " "
 
 
+def predict(kind, attr, ms, flavor="abi", lw=False):
+    """Every fact of a struct/union case (labels as in struct_case) under the reference layout or under a transcription of
+    a known deviation of chibicc (see layout)."""
+    pre, post = ATTRS[attr]
+    size, al, moffs, mbits, eff = layout(kind, pre + post, flat(ms), flavor, lw)
+    model = {"size": size, "align": al}
+    for m in ms:
+        for o in m["offs"]:
+            model["off:" + o] = moffs[o]
+        for b in m["bits"]:
+            model["img:" + b] = image(size, mbits[b])
+        for o, ta, sz in m.get("ea", ()):
+            # GNU C: _Alignof(lvalue naming a member) is the alignment of that member declaration (_Alignas, packed);
+            # talign (not a compared fact) is the alignment of the member's type
+            model["ealign:" + o] = model["amalign:" + o] = eff[o]
+            model["msize:" + o] = sz
+            model["talign:" + o] = ta
+    if any(m.get("ea") for m in ms):
+        model["asize"], model["aalign"], model["aealign"] = 3 * size, al, al
+    return model
+
+
 def struct_case(kind, attr, seq, reduced=False):
     pre, post = ATTRS[attr]
     ms = [member(c, j) for j, c in enumerate(seq)]
-    decl = "%s%sC@ { %s }%s;" % (kind, attr_text(pre), " ".join(m["decl"] for m in ms), attr_text(post))
+    defs = []
+    for m in ms:
+        for d in m.get("pre", ()):
+            if d not in defs:
+                defs.append(d)
+    decl = "%s%s%sC@ { %s }%s;" % ("".join(d + " " for d in defs), kind, attr_text(pre), " ".join(m["decl"] for m in ms), attr_text(post))
     T = "%s C@" % kind
     facts = [("size", "sizeof(%s)" % T), ("align", "_Alignof(%s)" % T)]
     offs = [o for m in ms for o in m["offs"]]
     bits = [b for m in ms for b in m["bits"]]
     facts += [("off:" + o, "offsetof(%s, %s)" % (T, o)) for o in offs]
-    size, al, moffs, mbits = layout(kind, pre + post, flat(ms), "abi")
-    model = {"size": size, "align": al}
-    for o in offs:
-        model["off:" + o] = moffs[o]
-    for b in bits:
-        model["img:" + b] = image(size, mbits[b])
+    ea = [o for m in ms for o, ta, sz in m.get("ea", ())]
+    if ea:
+        # the members declared with _Alignas: sizeof / _Alignof(expression) of the member, of an array of the enclosing
+        # type, of its elements and of the member inside an element
+        decl += " extern %s FN(zo@)[3];" % T
+        for o in ea:
+            facts += [("ealign:" + o, "_Alignof(((%s *)0)->%s)" % (T, o)), ("msize:" + o, "sizeof(((%s *)0)->%s)" % (T, o)),
+                      ("amalign:" + o, "_Alignof(FN(zo@)[2].%s)" % o)]
+        facts += [("asize", "sizeof(FN(zo@))"), ("aalign", "_Alignof(FN(zo@))"), ("aealign", "_Alignof(FN(zo@)[1])")]
+    model = predict(kind, attr, ms)
     cid = "C/%s/%s/%s" % (kind, attr, ",".join(seq))
     red = case(cid, "C", decl, facts[:2], model=model, meta=(kind, attr, tuple(seq)))
     return case(cid, "C", decl, facts, img=(T, bits) if bits else None, model=model, meta=(kind, attr, tuple(seq)), reduced=red)
@@ -555,6 +785,57 @@ def gen_C_block(blk):
     return cases
 
 
+# Family Z (reported with the struct/union family): one member declared with _Alignas, operand x target x position, between
+# context members.  The context alphabets are closed under dropping a member, so every sub-sequence is an enumerated case.
+ZCTX = {"quick": (("", "c", "c:3"), ("", "c")),
+        "thorough": (("", "c", "c:3", "i", "ld", "l:33"), ("", "c", "l", "c:1"))}
+ZCTX_POS = (("", "c"), ("",))                        # contexts of the cases that vary the position of the specifier
+ZATTRS = {"quick": ("plain", "packed"), "thorough": ("plain", "packed", "aligned2", "aligned32-post", "packed+aligned4")}
+
+
+def z_codes(tier, cls):
+    """-> [(member code, context alphabets)] of one operand class ('multi': pairs of specifiers)"""
+    out = []
+    if cls == "multi":
+        tgts = ("c", "s") if tier == "quick" else ("c", "s", "ca3", "cc")
+        for a in MULTI_OPS:
+            for b in MULTI_OPS:
+                for tk in tgts:
+                    for pos in ("0", "s") + (("1",) if tier == "thorough" else ()):
+                        if alignas_decl([a, b], tk, pos, "m"):
+                            out.append(("Z.%s+%s.%s.%s" % (a, b, tk, pos), ZCTX_POS))
+        return out
+    for o in _OPS:
+        if o[1] != cls:
+            continue
+        for tk in TGT:
+            nspec = len(TGT[tk][0])
+            for p in range(nspec + 1):
+                if not alignas_decl([o[0]], tk, str(p), "m"):
+                    continue
+                if p == 0:
+                    out.append(("Z.%s.%s.0" % (o[0], tk), ZCTX[tier]))
+                elif tier == "thorough" or tk in ("c", "buf", "ld", "c5"):
+                    out.append(("Z.%s.%s.%d" % (o[0], tk, p), ZCTX_POS))
+    return out
+
+
+def blocks_Z(tier):
+    return [("Z", kind, attr, cls) for kind in ("struct", "union") for attr in ZATTRS[tier] for cls in OPCLASSES + ["multi"]]
+
+
+def gen_Z_block(tier, blk):
+    _, kind, attr, cls = blk
+    cases = []
+    for code, (pres, posts) in z_codes(tier, cls):
+        for a in pres:
+            for b in posts:
+                seq = tuple(x for x in (a, code, b) if x)
+                if valid_seq(kind, seq):
+                    cases.append(struct_case(kind, attr, seq))
+    return cases
+
+
 def case_from_cid(cid):
     """Rebuild a family-C case from its id (used when shrinking and writing replays)."""
     _, kind, attr, seq = cid.split("/", 3)
@@ -562,7 +843,8 @@ def case_from_cid(cid):
 
 
 def all_blocks(tier):
-    return [("A", mi) for mi in range(len(MULTISETS))] + [("B",), ("D",)] + blocks_C(tier)
+    return ([("A", mi) for mi in range(len(MULTISETS))] + [("B",)] + [("D", part) for part in D_PARTS] + blocks_C(tier) +
+            blocks_Z(tier))
 
 
 def block_cases(tier, blk):
@@ -571,20 +853,41 @@ def block_cases(tier, blk):
     if blk[0] == "B":
         return gen_B(tier)
     if blk[0] == "D":
-        return gen_D(tier)
+        return gen_D(tier, blk[1])
+    if blk[0] == "Z":
+        return gen_Z_block(tier, blk)
     return gen_C_block(blk)
 
 
 # ------------------------------------------------------------------------------------------------------------------
 # Family D: stddef.h, enums, _Alignas on objects
-def gen_D(tier):
+D_STORAGE = {"extern": ("", False), "static": ("static ", False), "slocal": ("static ", True), "auto": ("", True)}
+D_PARTS = ["base", "operands"] + ["obj-" + st for st in D_STORAGE]
+D_INIT = {"c5": "{{1}}", "pt2": "{1, 2}"}
+
+
+def gen_D(tier, part="base"):
     cases = []
+    if part == "operands":
+        # the operand alphabet itself: sizeof/_Alignof of every type name, the value of every constant
+        for o in _OPS:
+            op = OPS[o[0]]
+            defs = " ".join(op_defs(op["defs"]))
+            if op["size"] is None:
+                cases.append(case("D/operand/" + o[0], "D", defs, [("value", op["text"])], model={"value": op["align"]},
+                                  shape="alignas-operand/const", meta=part))
+            else:
+                cases.append(case("D/operand/" + o[0], "D", defs, [("size", "sizeof(%s)" % op["text"]), ("align", "_Alignof(%s)" % op["text"])],
+                                  model={"size": op["size"], "align": op["align"]}, shape="alignas-operand/" + op["cls"], meta=part))
+        return cases
+    if part.startswith("obj-"):
+        return gen_D_objects(tier, part[4:])
     for t, sz, al in (("size_t", 8, 8), ("ptrdiff_t", 8, 8), ("wchar_t", 4, 4), ("max_align_t", 32, 16)):
         cases.append(case("D/stddef/" + t, "D", "", [("size", "sizeof(%s)" % t), ("align", "_Alignof(%s)" % t)],
-                          model={"size": sz, "align": al}, shape="stddef/" + t))
+                          model={"size": sz, "align": al}, shape="stddef/" + t, meta=part))
     for nm, body in (("zero", "A@"), ("neg", "A@ = -1"), ("max", "A@ = 2147483647"), ("min", "A@ = -2147483647 - 1")):
         cases.append(case("D/enum/" + nm, "D", "enum E@ { %s };" % body, [("size", "sizeof(enum E@)"), ("align", "_Alignof(enum E@)")],
-                          model={"size": 4, "align": 4}, shape="enum/" + nm))
+                          model={"size": 4, "align": 4}, shape="enum/" + nm, meta=part))
     for t, sz in (("char", 1), ("short", 2), ("int", 4), ("long", 8), ("long double", 16), ("struct B0", 8)):
         for k in (1, 2, 4, 8, 16, 32, 64):
             if k < (4 if t == "struct B0" else sz):
@@ -594,14 +897,82 @@ def gen_D(tier):
                 cases.append(case("D/alignas-object/%s%s/%d" % (st.strip() and "static-", t.replace(" ", "_"), k), "D",
                                   "%schar FN(g@a) = 1; %s_Alignas(%d) %s FN(g@) = {1}; %schar FN(g@b) = 2;" % (st, st, k, t, st),
                                   bfacts=[("misalign", "(long)((unsigned long)&FN(g@) %% %d) + 0 * (FN(g@a) + FN(g@b))" % k), ("size", "sizeof(FN(g@))")],
-                                  model={"misalign": 0, "size": sz}, shape="alignas-object/%s" % ("static" if st else "extern")))
+                                  model={"misalign": 0, "size": sz}, shape="alignas-object/%s" % ("static" if st else "extern"), meta=part))
                 if not st and k > 16:
                     continue        # the psABI guarantees 16-byte stack alignment only; larger automatic alignments are extended
                 cases.append(case("D/alignas-local/%s%s/%d" % (st.strip() and "static-", t.replace(" ", "_"), k), "D",
                                   blk="%schar a = 1; %s_Alignas(%d) %s v = {1}; %schar b = 2;" % (st, st, k, t, st),
                                   bfacts=[("misalign", "(long)((unsigned long)&v %% %d) + 0 * (a + b)" % k), ("size", "sizeof(v)")],
                                   model={"misalign": 0, "size": sz},
-                                  shape="alignas-local/%s" % ("static" if st else "auto")))
+                                  shape="alignas-local/%s" % ("static" if st else "auto"), meta=part))
+    return cases
+
+
+def gen_D_objects(tier, stname):
+    """Objects declared with _Alignas(operand) in one storage class (file scope with external / internal linkage, static
+    local, automatic), operand x target type x position; pairs of specifiers; objects and arrays of a struct type that
+    has an _Alignas(type-name) member.  Observed: the address (run time), sizeof, _Alignof(expression) of the object, of
+    its elements and members."""
+    st, local = D_STORAGE[stname]
+    part = "obj-" + stname
+    cases = []
+    g, ga, gb = ("v", "a", "b") if local else ("FN(g@)", "FN(g@a)", "FN(g@b)")
+
+    def emit(cid, defs, body, bfacts, model, shape):
+        text = "%schar %s = 1; %s %schar %s = 2;" % (st, ga, body, st, gb)
+        if local:
+            cases.append(case(cid, "D", " ".join(defs), blk=text, bfacts=bfacts, model=model, shape=shape, meta=part))
+        else:
+            cases.append(case(cid, "D", " ".join(defs) + " " + text, bfacts=bfacts, model=model, shape=shape, meta=part))
+
+    def obj(opkeys, tk, pos, cls):
+        d = alignas_decl(opkeys, tk, pos, g)
+        if d is None:
+            return
+        A = d["align"]
+        if stname == "auto" and A > 16:
+            return              # the psABI guarantees 16-byte stack alignment only
+        bf = [("misalign", "(long)((unsigned long)&%s %% %d) + 0 * (%s + %s)" % (g, A, ga, gb)), ("size", "sizeof(%s)" % g),
+              ("ealign", "_Alignof(%s)" % g)]
+        model = {"misalign": 0, "size": d["size"], "ealign": A, "talign:ealign": d["talign"], "lw_align": d["lw_align"]}
+        if d["form"] == "array":
+            bf += [("elalign", "_Alignof(%s[0])" % g), ("elsize", "sizeof(%s[1])" % g)]
+            model["elalign"] = model["elsize"] = d["talign"]
+        emit("D/alignas/%s/%s.%s.%s" % (stname, "+".join(opkeys), tk, pos), d["defs"],
+             "%s%s = %s;" % (st, d["text"], D_INIT.get(tk, "{1}")), bf, model, "alignas-object/%s/%s" % (stname, cls))
+
+    for o in _OPS:
+        cls = "const" if o[1] == "const" else "typename"
+        for tk in TGT_OBJ:
+            nspec = len(TGT[tk][0])
+            for p in range(nspec + 1):
+                if p == 0 or tier == "thorough" or tk in ("c", "buf"):
+                    obj([o[0]], tk, str(p), cls)
+    for a in MULTI_OPS:
+        for b in MULTI_OPS:
+            for tk in (("c",) if tier == "quick" else ("c", "s", "ca3")):
+                for pos in (("0",) if tier == "quick" else ("0", "s")):
+                    obj([a, b], tk, pos, "multi")
+    # objects and arrays of a struct type with an _Alignas(type-name) member
+    for o in _OPS:
+        op = OPS[o[0]]
+        if not op["size"]:
+            continue
+        a, n = op["align"], op["size"]
+        if stname == "auto" and a > 16:
+            continue
+        sz = up(a + n + 1, a)
+        defs = op_defs(op["defs"]) + ["struct zt_@ { char t; _Alignas(%s) unsigned char buf[sizeof(%s)]; char e; };" % (op["text"], op["text"])]
+        gv = "w" if local else "FN(g@w)"
+        bf = [("misalign", "(long)((unsigned long)&%s %% %d) + 0 * (%s + %s)" % (g, a, ga, gb)),
+              ("misalign2", "(long)((unsigned long)&%s[1].buf %% %d)" % (gv, a)),
+              ("off", "(long)((char *)%s[1].buf - (char *)%s)" % (gv, gv)),
+              ("size", "sizeof(%s)" % g), ("asize", "sizeof(%s)" % gv), ("ealign", "_Alignof(%s)" % g), ("aalign", "_Alignof(%s)" % gv),
+              ("aealign", "_Alignof(%s[2])" % gv), ("amalign", "_Alignof(%s[2].buf)" % gv), ("msize", "sizeof(%s[2].buf)" % gv)]
+        model = {"misalign": 0, "misalign2": 0, "off": sz + a, "size": sz, "asize": 3 * sz, "ealign": a, "aalign": a, "aealign": a,
+                 "amalign": a, "msize": n, "talign:ealign": a, "talign:amalign": 1}
+        emit("D/typed-object/%s/%s" % (stname, o[0]), defs, "%sstruct zt_@ %s = {1}; %sstruct zt_@ %s[3] = {{1}};" % (st, g, st, gv), bf, model,
+             "object-of-type-with-alignas-member/%s" % stname)
     return cases
 
 
@@ -815,11 +1186,32 @@ def _run_batch(args):
 
 
 # ------------------------------------------------------------------------------------------------------------------
+SIG_PACKEDBF = "C08|struct|packed+bitfield|bitfields-laid-out-as-if-not-packed"
+SIG_LASTWINS = "C08|alignas|several-specifiers-in-one-declaration|last-one-wins"
+SIG_ALIGNOF = "C08|alignof-expression|declared-object-or-member|alignment-of-its-type"
+
+
+def alignof_split(c, d):
+    """-> (diffs of `_Alignof(lvalue naming a declared object or member)` facts whose observed value is the alignment of
+    the expression's *type* - the listed finding SIG_ALIGNOF -, all other diffs)"""
+    kd, rest = [], []
+    for x in d:
+        k, _, o = x[0].partition(":")
+        ta = c["model"].get("talign:" + (o or k)) if k in ("ealign", "amalign") else None
+        (kd if ta is not None and x[1] == ta else rest).append(x)
+    return kd, rest
+
+
+# facts about an array of the type / its elements / a member inside an element count as the fact about the type itself
+DERIVED = {"aalign": "align", "aealign": "align", "asize": "size", "amalign": "ealign"}
+
+
 def dev_class(diffs):
     ks = set()
     for lab, a, b in diffs:
         k = lab.split(":")[0]
         k = re.sub(r"\d+$", "", k)
+        k = DERIVED.get(k, k)
         if k == "img":
             ks.add("bitpos" if not str(a).startswith("signal") else "setter-" + str(a))
         elif isinstance(a, int) and isinstance(b, int):
@@ -853,7 +1245,8 @@ def run(ctx):
         import random
         random.Random(ctx.seed).shuffle(blks)             # shard assignment only
     # short sequences first (shrinking looks sub-sequences up, also when the deadline stops the run); big blocks first
-    order = sorted(range(len(blks)), key=lambda i: (blks[i][4], -len(ALPHAS[blks[i][3]])) if blks[i][0] == "C" else (0, 0))
+    order = sorted(range(len(blks)), key=lambda i: (blks[i][4], -len(ALPHAS[blks[i][3]])) if blks[i][0] == "C" else
+                   ((2, 1) if blks[i][0] == "Z" else (0, 0)))
     args = [(ctx.chibicc, ctx.include, os.path.join(ctx.work, "k%d" % i), tier, blks[i]) for i in order]
     results, rejected, failcases = {}, {}, {}
     ncases = judged = reduced = ref_rejected = odis = nfacts = nimg = 0
@@ -878,49 +1271,80 @@ def run(ctx):
                 if k in results:
                     raise core.HarnessError("case id %s produced by two blocks" % k)
             results.update(out["fail"]); rejected.update(out["rejected"]); failcases.update(out["failcases"])
-            if out["blk"][0] in ("B", "D") or (out["blk"][0] == "C" and out["blk"][4] == 2 and out["blk"][2] == "packed" and out["blk"][1] == "struct") \
+            if out["blk"][0] in ("B", "D") or out["blk"] in (("Z", "struct", "plain", "struct"), ("Z", "union", "plain", "multi")) or (out["blk"][0] == "C" and out["blk"][4] == 2 and out["blk"][2] == "packed" and out["blk"][1] == "struct") \
                     or out["blk"] == ("A", 23):
                 for x in out["samples"]:
-                    ctx.sample(x, limit=16)
+                    ctx.sample(x, limit=24)
 
     def get_case(cid):
         return failcases[cid] if cid in failcases else case_from_cid(cid)
 
     # ---- classification ---------------------------------------------------------------------------------------
+    # Known deviations of the pinned tree.  Each is recognised only when *every* observed fact of the case equals the
+    # transcription of that deviation (layout(flavor=..., lw=...)); any other wrong answer keeps its own signature.
     def explained_known(c, d):
-        """packed struct with a non-zero-width bit-field whose observed facts are exactly those of chibicc's
-        documented algorithm (bit-fields allocated in aligned storage units of their declared type, as in a struct
-        that is not packed), every other fact being right."""
+        """-> set of known-finding signatures that together explain all diffs d of a struct/union case, or None.
+        packed-bitfield: packed struct with a non-zero-width bit-field whose observed facts are exactly those of chibicc's
+        documented algorithm (bit-fields allocated in aligned storage units of their declared type, as in a struct that
+        is not packed); last-wins: a member declared with several _Alignas specifiers gets the alignment of the last
+        one; alignof-type: _Alignof(member designator) is the alignment of the member's type.  The smallest set of
+        deviations whose transcription reproduces every observed fact is taken."""
         kind, attr, seq = c["meta"]
         pre, post = ATTRS[attr]
-        if kind != "struct" or "packed" not in pre + post or not has_nonzero_bitfield(seq):
-            return False
-        ms = flat([member(code, j) for j, code in enumerate(seq)])
-        size, al, offs, bitpos = layout(kind, pre + post, ms, "chibicc")
+        can_bf = kind == "struct" and "packed" in pre + post and has_nonzero_bitfield(seq)
+        can_lw = any(code.startswith("Z.") and "+" in code for code in seq)
+        can_ao = any(lab.startswith("talign:") for lab in c["model"])
+        ms = [member(code, j) for j, code in enumerate(seq)]
         obs = dict((lab, a) for lab, a, b in d)
-        want = {"size": size, "align": al}
-        for o, v in offs.items():
-            want["off:" + o] = v
-        for lab, a in obs.items():
-            if lab.startswith("img:"):
-                if a != image(size, bitpos[lab[4:]]):
-                    return False
-            elif want.get(lab) != a:
-                return False
-        for lab, v in c["model"].items():              # facts that did not differ must also be what the transcription says
-            if lab in obs:
-                continue
-            if lab.startswith("img:"):
-                if size == c["model"]["size"] and v != image(size, bitpos[lab[4:]]):
-                    return False
-            elif want.get(lab) != v:
-                return False
-        return True
+        combos = [(bf, lw, ao) for bf in (False, True) for lw in (False, True) for ao in (False, True)
+                  if (bf or lw or ao) and (can_bf or not bf) and (can_lw or not lw) and (can_ao or not ao)]
+        for bf, lw, ao in sorted(combos, key=lambda x: (sum(x), x)):
+            want = predict(kind, attr, ms, "chibicc" if bf else "abi", lw)
+            if ao:
+                for lab in list(want):
+                    if lab.startswith("talign:"):
+                        want["ealign:" + lab[7:]] = want["amalign:" + lab[7:]] = want[lab]
+            ok = True
+            for lab, v in c["model"].items():
+                if lab.startswith("talign:"):
+                    continue
+                if lab in obs:
+                    ok = want[lab] == obs[lab]
+                elif lab.startswith("img:"):           # images are compared only when the sizes agree
+                    ok = want["size"] != c["model"]["size"] or want[lab] == v
+                else:                                   # facts that did not differ must also be what the transcription says
+                    ok = want[lab] == v
+                if not ok:
+                    break
+            if ok:
+                return set(sg for flag, sg in ((bf, SIG_PACKEDBF), (lw, SIG_LASTWINS), (ao, SIG_ALIGNOF)) if flag)
+        return None
 
-    known_ids = set()
+    def explained_known_object(c, d):
+        """an object declared with several _Alignas specifiers that is aligned as the last one demands"""
+        lwa = c["model"].get("lw_align")
+        if not c["shape"].endswith("/multi") or lwa is None or lwa == c["model"]["ealign"]:
+            return None
+        for lab, a, b in d:
+            if not ((lab == "misalign" and a % lwa == 0) or (lab == "ealign" and a == lwa)):
+                return None
+        return {SIG_LASTWINS}
+
+    known_ids, known_sigs, real = set(), {}, {}
     for cid, d in results.items():
-        if cid.startswith("C/") and explained_known(case_from_cid(cid), d):
-            known_ids.add(cid)
+        c = get_case(cid)
+        kd, rest = alignof_split(c, d)
+        if cid.startswith("C/"):
+            sigs = explained_known(c, d)
+        else:
+            sigs = {SIG_ALIGNOF} if kd else set()
+            if rest:
+                ex = explained_known_object(c, rest) if cid.startswith("D/alignas/") else None
+                sigs = None if ex is None else sigs | ex
+        if sigs is None:
+            real[cid] = rest or d      # the part attributed to SIG_ALIGNOF is left out of the signature of the rest
+        else:
+            known_ids.add(cid); known_sigs[cid] = sigs
 
     def shrink(c, pool):
         """Drop members (then the attribute) while the same kind of failure persists.  Every sub-sequence over the same
@@ -955,6 +1379,9 @@ def run(ctx):
                 out.append("declarator-list")
             elif code.startswith("Sa"):
                 out.append("array")
+            elif code.startswith("Z."):
+                ops = code.split(".")[1].split("+")
+                out.append("alignas-several" if len(ops) > 1 else ("alignas-const" if OPS[ops[0]]["cls"] == "const" else "alignas-typename"))
             elif code[0] == "A":
                 out.append("alignas")
             elif code.endswith("F"):
@@ -969,7 +1396,7 @@ def run(ctx):
 
     def files_for(c):
         if c["fam"] == "D":        # address-based facts depend on the neighbours: replay the whole (small) block
-            return {"unit.c": twin.PRELUDE + build_unit(gen_D(tier))[0]}
+            return {"unit.c": twin.PRELUDE + build_unit(gen_D(tier, c["meta"]))[0]}
         return {"unit.c": twin.PRELUDE + build_unit([c])[0]}
 
     FAMNAME = {"A": "spec", "B": "declarator", "D": "misc"}
@@ -987,14 +1414,15 @@ def run(ctx):
     for cid in sorted(results):
         d = results[cid]
         if cid in known_ids:
-            if ctx.violation("C08|struct|packed+bitfield|bitfields-laid-out-as-if-not-packed", "%s: %s" % (cid, d[:3])):
-                v = ctx.violations["C08|struct|packed+bitfield|bitfields-laid-out-as-if-not-packed"]
-                if not v["files"]:
-                    v["files"], v["replay"] = files_for(case_from_cid(cid)), replay_for("diff")
+            for ksig in sorted(known_sigs[cid]):
+                if ctx.violation(ksig, "%s: %s" % (cid, d[:3])):
+                    v = ctx.violations[ksig]
+                    if not v["files"]:
+                        v["files"], v["replay"] = files_for(get_case(cid)), replay_for("diff")
             continue
         c = get_case(cid)
-        c0 = shrink(c, results) if c["fam"] == "C" else c
-        d0 = results.get(c0["cid"], d)
+        c0 = shrink(c, real) if c["fam"] == "C" else c
+        d0 = real.get(c0["cid"], real[cid])
         if c0["fam"] == "C":
             sig = "C08|%s|%s:%s|%s" % (c0["meta"][0], c0["meta"][1], abstract(c0["meta"][2]), dev_class(d0))
         elif c0["fam"] == "A":
@@ -1016,19 +1444,36 @@ def run(ctx):
                    "sequence x attribute), case ids are unique; every case is non-trivial: it is compiled by both compilers "
                    "and at least sizeof and _Alignof (plus offsetof of every named member, bit-field byte images, _Generic "
                    "identity) are compared table-against-table; a case counts only when gcc accepted it and the Python "
-                   "model agreed with gcc on every predicted fact",
+                   "model agreed with gcc on every predicted fact; _Alignas operands range over constants and type names of "
+                   "every class (see bounds), _Alignof(expression) follows GNU C (alignment of the named declaration)",
               bounds=("A: 30 specifier multisets of 6.7.2p2, all permutations, <=2 (thorough 3) extra tokens from {const, volatile, "
                       "static, extern, typedef, _Thread_local, _Alignas(16), register, auto} at every position, 5 contexts (declaration, "
                       "typedef, type-name, struct member, block scope); "
                       "B: compositions of {pointer, array, function} of length <=%d around %d base types, minimal/full "
                       "parentheses, 2 parameter lists, named/typedef/abstract/parameter contexts; "
                       "C: member sequences (struct and union) of length <=%s over alphabets full=%d, q=%d, t4=%d members x %d "
-                      "attribute variants (see blocks_C); D: stddef.h types, enums, _Alignas on objects")
+                      "attribute variants (see blocks_C); "
+                      "Z (_Alignas dimension of C): one member `_Alignas(operand) target` between context members (before: %s; "
+                      "after: %s) in struct and union x attributes %s; %d operands = %s (constants and constant expressions; "
+                      "type names: scalars, pointers, arrays, structs/unions with size != alignment, typedef names, structs "
+                      "with an _Alignas member and arrays/typedefs/pointers of them) x %d targets (scalars, arrays, struct, "
+                      "buf[sizeof(T)] idiom, anonymous struct, declarator list) x position of the specifier in the specifier "
+                      "list; pairs of specifiers over %d^2 operands; only declarations defined by C11 6.7.5p4; "
+                      "D: stddef.h types, enums, every operand on its own, objects declared with _Alignas(operand) x %d object "
+                      "targets x 4 storage classes (extern, static, static local, automatic <= 16), pairs of specifiers, "
+                      "objects/arrays of a struct with an _Alignas(type-name) member")
               % (3 if tier == "quick" else 4, 6 if tier == "quick" else len(BASES), "3" if tier == "quick" else "4",
-                 len(ALPHA_FULL), len(ALPHA_Q), len(ALPHA_T4), len(ATTRS)),
+                 len(ALPHA_FULL), len(ALPHA_Q), len(ALPHA_T4), len(ATTRS),
+                 "/".join(x or "-" for x in ZCTX[tier][0]), "/".join(x or "-" for x in ZCTX[tier][1]), "/".join(ZATTRS[tier]),
+                 len(_OPS), ", ".join("%d %s" % (sum(1 for o in _OPS if o[1] == k), k) for k in OPCLASSES), len(TGT),
+                 len(MULTI_OPS), len(TGT_OBJ)),
+              alignas_operands=len(_OPS), alignas_operands_size_ne_align=sum(1 for o in _OPS if o[4] is not None and o[4] != o[5]),
+              alignas_targets=len(TGT),
               **{"cases_%s" % k: v for k, v in fam_count.items()})
     ctx.assume("gcc 12 -O0 is the System V x86-64 psABI reference for sizeof, _Alignof, offsetof and bit positions")
     ctx.assume("type identity (_Generic) is compared up to chibicc's merge of char/signed char and long/long long")
+    ctx.assume("_Alignof(expression) is a GNU extension: for an lvalue naming a declared object or member gcc's answer (the alignment "
+               "of the declaration) is the reference; automatic objects are only required to be aligned up to 16")
     ctx.assume("sequences without a named member (6.7.2.1p8: undefined) and misplaced flexible array members are not generated; "
                "_Alignas below the natural alignment (constraint violation) is not generated")
     ctx.assume("attributes on individual members, #pragma pack, _Alignas on bit-fields, enums wider than int, _Complex, _Atomic "
@@ -1039,7 +1484,7 @@ def run(ctx):
                                     % (judged, ncases, ref_rejected, odis, len(rejected)))
         if nimg == 0:
             raise core.HarnessError("vacuous: no bit-field image compared")
-        if len(fam_count) != 4:
+        if len(fam_count) != 5:
             raise core.HarnessError("vacuous: a family produced no cases: %r" % fam_count)
     if odis:
         ctx.cover(note_oracle="model and gcc disagree on %d cases (skipped, see samples): the model needs correcting" % odis)
